@@ -102,6 +102,19 @@ def build_static(b, edges, rng, extra_nodes=()):
     return obj
 
 
+def mutate(b, obj, old, new, rng):
+    """edit the SAME object from the hyperedge set `old` into `new` through remove_edge / add_edge (nodes stay)"""
+    old, new = {tuple(e) for e in old}, {tuple(e) for e in new}
+    ops = [("remove", e) for e in sorted(old - new)] + [("add", e) for e in sorted(new - old)]
+    rng.shuffle(ops)
+    with captured():
+        for op, e in ops:
+            if op == "remove":
+                obj.remove_edge(b._tuple(e))
+            else:
+                obj.add_edge(b._tuple(e))
+
+
 def build_temporal(b, tedges, rng):
     obj = b.new(False)
     tedges = list(tedges)
@@ -348,7 +361,12 @@ ASSUMPTIONS = (
     "(or CEC on a matrix whose spectral gap cannot converge in 1000 iterations) are counted, not judged",
     "snapshots of a temporal hypergraph may or may not carry the nodes without hyperedges at that time: both readings accepted",
     "the index -> node correspondence of the sub-hypergraph centrality vector is the library's own adjacency_matrix(return_mapping=True)",
-    "unweighted hypergraphs; s in 1..3; line graphs of at most 7 hyperedges, bipartite graphs of at most 11 vertices")
+    "unweighted hypergraphs; s in 1..3; line graphs of at most 7 hyperedges, bipartite graphs of at most 11 vertices",
+    "history of the OBJECT: a fifth of the random static hypergraphs and two thirds of the connected uniform ones are reached by editing "
+    "(remove_edge / add_edge, same nodes) an object on which every centrality has already been computed; the statement speaks about the "
+    "hypergraph as it is, so the observation is judged like any other against the state read back through the public API",
+    "node labels are integers and strings (the families of harness.binding plus strings containing E); tuple-valued labels are not used: the "
+    "container's own node mapping (Hypergraph.get_mapping) does not accept them")
 
 
 # ---------------------------------------------------------------------------
@@ -359,11 +377,15 @@ def static_specs(tier, seed, rng):
     specs = []
     fams = ("ident", "sparse", "str", "strE", "zero")
 
-    def add(n, es, labelings, eigen_seeds=None):
+    def add(n, es, labelings, eigen_seeds=None, prev=None):
         i = len(specs)
         specs.append({"kind": "static", "n": n, "edges": [list(e) for e in es], "labelings": labelings,
                       "extra": bool(i % 3 == 0 or eigen_seeds), "eigen_seeds": eigen_seeds or [[] for _ in labelings],
                       "case_seed": seed * 1000211 + i})
+        # history of the OBJECT: it had the hyperedges `prev` when every centrality was first computed on it and has been
+        # edited (remove_edge / add_edge) into `es` since
+        if prev is not None and sorted(tuple(e) for e in prev) != sorted(tuple(e) for e in es):
+            specs[-1]["prev_edges"] = [list(e) for e in prev]
     e3 = [e for z in (1, 2, 3) for e in itertools.combinations((1, 2, 3), z)]
     masks = list(range(1 << len(e3)))
     for j, mask in enumerate(rng.sample(masks, 40) if quick else masks):
@@ -371,7 +393,8 @@ def static_specs(tier, seed, rng):
     for i in range(1000 if quick else 4500):
         n = rng.choice([4, 5, 5, 6, 6, 7])
         f1, f2 = rng.sample(fams, 2)
-        add(n, rand_edges(rng, n, min(7, 11 - n), 5), [FAMILIES[f1](n), FAMILIES[f2](n)])
+        add(n, rand_edges(rng, n, min(7, 11 - n), 5), [FAMILIES[f1](n), FAMILIES[f2](n)],
+            prev=rand_edges(rng, n, min(7, 11 - n), 5) if i % 5 == 3 else None)
     # connected 3- and 4-uniform hypergraphs labelled 0..N-1, and a relabelled twin (a permutation of 0..N-1)
     nstarts = 4 if quick else 12
     for i in range(250 if quick else 1000):
@@ -380,7 +403,8 @@ def static_specs(tier, seed, rng):
         seeds = [(seed * 97 + i * 131 + j) % (2 ** 31) for j in range(nstarts)]
         perm = list(range(n))
         rng.shuffle(perm)
-        add(n, rand_uniform_connected(rng, n, k), [list(range(n)), perm], [seeds, seeds[:2]])
+        add(n, rand_uniform_connected(rng, n, k), [list(range(n)), perm], [seeds, seeds[:2]],
+            prev=rand_uniform_connected(rng, n, k) if i % 3 != 0 else None)
     return specs
 
 
@@ -390,12 +414,19 @@ def static_validate(res, specs, stats, procs=8):
         rng = random.Random(sp["case_seed"])
         for labels, eseeds in zip(sp["labelings"], sp["eigen_seeds"]):
             b = Binding("hg", labels, rng)
-            obj = build_static(b, [tuple(e) for e in sp["edges"]], rng,
-                               extra_nodes=tuple(range(1, sp["n"] + 1)) if sp["extra"] else ())
+            extra = tuple(range(1, sp["n"] + 1)) if sp["extra"] else ()
+            if sp.get("prev_edges") is not None:
+                obj = build_static(b, [tuple(e) for e in sp["prev_edges"]], rng, extra_nodes=extra)
+                observe_static(b, obj, (1, 2, 3), eseeds[:1])           # judged on its own elsewhere; here it is the past
+                mutate(b, obj, sp["prev_edges"], sp["edges"], rng)
+            else:
+                obj = build_static(b, [tuple(e) for e in sp["edges"]], rng, extra_nodes=extra)
             c, log = observe_static(b, obj, (1, 2, 3), eseeds)
             cases.append(c)
             logs.append(log)
             descr.append({"n": sp["n"], "hyperedges": sp["edges"], "labels": labels, "all_nodes_added": sp["extra"], "spec": si})
+            if sp.get("prev_edges") is not None:
+                descr[-1]["object_edited_after_earlier_calls_from"] = sp["prev_edges"]
     v = O.run_oracle("Oracle_C20", cases, {"Kind": "hg"}, procs=procs)
     tl = dict(v["rejects"])
     per_spec = {}
@@ -520,6 +551,8 @@ def run(tier, seed):
             s_centrality_dicts_compared=sum(len(l["edge"]) + len(l["node"]) for l in logs + tlogs),
             values_compared=sum(len(r["values"]) for l in logs + tlogs for r in l["edge"] + l["node"]),
             subhypergraph_centrality_vectors=sum(1 for l in logs if "shc" in l),
+            static_on_edited_objects=sum(1 for d in descr if d.get("object_edited_after_earlier_calls_from") is not None),
+            eigen_on_edited_objects=sum(1 for d, l in zip(descr, logs) if "eig" in l and d.get("object_edited_after_earlier_calls_from") is not None),
             traces_validated_against_impl=len(cases) + len(tcases), validator_states=v["states"] + tv["states"], **stats)
     if cases:
         res.sample({"case": descr[-1], "CEC/HEC": [{k: r[k] for k in ("fn", "seed", "values", "not_converged") if k in r} for r in logs[-1].get("eig", [])][:2]})
@@ -570,7 +603,10 @@ def report(res, d, spec, failed, log):
     labels = d["labels"]
     lt = "int" if all(isinstance(x, int) for x in labels) else "str"
     hasE = any(isinstance(x, str) and "E" in x for x in labels)
-    res.reject({"function": fns if len(fns) > 1 else fns[0], "clauses": sorted(failed), "labels": lt, "labels_contain_E": hasE},
+    sig = {"function": fns if len(fns) > 1 else fns[0], "clauses": sorted(failed), "labels": lt, "labels_contain_E": hasE}
+    if d.get("object_edited_after_earlier_calls_from") is not None:
+        sig["history"] = "object edited after earlier calls"
+    res.reject(sig,
                "%s on %s" % ("; ".join("%s [%s]" % (k, x) for k, x in sorted(failed.items())),
                              {k: x for k, x in d.items() if k != "spec"}),
                {"spec": spec, "case": d, "failed": failed, "errors": log.get("errors"),
